@@ -81,8 +81,8 @@ theorem applyRes_exitCount (cfg : Cfg) (pol : Policy) (step : Nat) (tickEv : Ev)
     simp only [applyRes, Res.isOutcome, if_true]
     split
     · simp [exitCount_append, exitCount, Cmd.isExit]
-    · simp [exitCount_append, exitCount, Cmd.isExit]
-    · split
+    all_goals
+      split
       · split
         · simp [exitCount_append, exitCount, Cmd.isExit]
         · rw [exitCount_append]; exact Nat.add_le_add_left (Nat.le_of_eq rfl) _
